@@ -173,25 +173,27 @@ def run(tier):
     else:
         tours = [("wr", 2, "A_WR", (1, 1, 1)), ("ww", 2, "A_WW", (1, 1, 1)), ("wtr", 2, "A_WTR", (1, 1, 1)),
                  ("rtw", 2, "A_RTW", (1, 1, 1)), ("tt", 2, "A_TT", (0, 0, 1)), ("wrt", 3, "C_WRT", (0, 0, 0))]
-        configs = [("b1", 2, "B_1", (1, 0, 1)), ("b2", 2, "B_2", (1, 0, 1)), ("wrr", 3, "C_WRR", (1, 0, 1)),
-                   ("www", 3, "C_WWW", (1, 0, 0)), ("e1", 3, "E_1", (0, 0, 0)), ("wwrr", 4, "F_WWRR", (0, 0, 0))]
+        configs = [("b1", 2, "B_1", (1, 0, 1)), ("b2", 2, "B_2", (1, 0, 1)), ("wrr", 3, "C_WRR", (0, 0, 0)),
+                   ("www", 3, "C_WWW", (1, 0, 0)), ("wwr1", 3, "C_WWR", (1, 0, 1)),
+                   # the two biggest ones run under a time cap (TLC reports what it explored)
+                   ("e1", 3, "E_1", (0, 0, 0), 150), ("rwrt", 4, "G_RWRT", (0, 0, 0), 150)]
         configs_if_differs = [("wr", 2, "A_WR", (1, 1, 1)), ("ww", 2, "A_WW", (1, 1, 1))]
         specs = [
-            ("dfs_a_wr", {"progs": PROGS["A_WR"], "preempt": 4, "max_runs": 30000, "spur": 1, "eintr": 1, "weak": 1, "graph": "wr"}),
-            ("dfs_a_ww", {"progs": PROGS["A_WW"], "preempt": 4, "max_runs": 30000, "spur": 1, "eintr": 1, "weak": 1, "graph": "ww"}),
-            ("dfs_a_wtr", {"progs": PROGS["A_WTR"], "preempt": 4, "max_runs": 30000, "spur": 1, "eintr": 1, "weak": 1, "graph": "wtr"}),
-            ("dfs_wr", {"progs": PROGS["B_1"], "preempt": 3, "max_runs": 30000, "spur": 1, "eintr": 0, "weak": 1}),
-            ("dfs_try", {"progs": PROGS["B_2"], "preempt": 3, "max_runs": 30000, "spur": 1, "eintr": 1, "weak": 1}),
-            ("dfs_wwr", {"progs": PROGS["C_WWR"], "preempt": 3, "max_runs": 30000, "spur": 0, "eintr": 0, "weak": 0}),
-            ("dfs_wrr", {"progs": PROGS["C_WRR"], "preempt": 3, "max_runs": 30000, "spur": 0, "eintr": 0, "weak": 0}),
-            ("dfs_wwrr", {"progs": PROGS["F_WWRR"], "preempt": 2, "max_runs": 30000, "spur": 0, "eintr": 0, "weak": 0}),
-            ("dfs_www", {"progs": PROGS["C_WWW"], "preempt": 3, "max_runs": 20000, "spur": 0, "eintr": 0, "weak": 0}),
-            ("dfs_rwrt", {"progs": PROGS["G_RWRT"], "preempt": 2, "max_runs": 20000, "spur": 0, "eintr": 0, "weak": 0}),
-            ("dfs_wwrt", {"progs": PROGS["G_WWRT"], "preempt": 2, "max_runs": 20000, "spur": 0, "eintr": 0, "weak": 0}),
+            ("dfs_a_wr", {"progs": PROGS["A_WR"], "preempt": 4, "max_runs": 12000, "spur": 1, "eintr": 1, "weak": 1, "graph": "wr"}),
+            ("dfs_a_ww", {"progs": PROGS["A_WW"], "preempt": 4, "max_runs": 12000, "spur": 1, "eintr": 1, "weak": 1, "graph": "ww"}),
+            ("dfs_a_wtr", {"progs": PROGS["A_WTR"], "preempt": 4, "max_runs": 12000, "spur": 1, "eintr": 1, "weak": 1, "graph": "wtr"}),
+            ("dfs_wr", {"progs": PROGS["B_1"], "preempt": 3, "max_runs": 12000, "spur": 1, "eintr": 0, "weak": 1}),
+            ("dfs_try", {"progs": PROGS["B_2"], "preempt": 3, "max_runs": 12000, "spur": 1, "eintr": 1, "weak": 1}),
+            ("dfs_wwr", {"progs": PROGS["C_WWR"], "preempt": 3, "max_runs": 12000, "spur": 0, "eintr": 0, "weak": 0}),
+            ("dfs_wrr", {"progs": PROGS["C_WRR"], "preempt": 3, "max_runs": 12000, "spur": 0, "eintr": 0, "weak": 0}),
+            ("dfs_wwrr", {"progs": PROGS["F_WWRR"], "preempt": 2, "max_runs": 12000, "spur": 0, "eintr": 0, "weak": 0}),
+            ("dfs_www", {"progs": PROGS["C_WWW"], "preempt": 3, "max_runs": 8000, "spur": 0, "eintr": 0, "weak": 0}),
+            ("dfs_rwrt", {"progs": PROGS["G_RWRT"], "preempt": 2, "max_runs": 8000, "spur": 0, "eintr": 0, "weak": 0}),
+            ("dfs_wwrt", {"progs": PROGS["G_WWRT"], "preempt": 2, "max_runs": 8000, "spur": 0, "eintr": 0, "weak": 0}),
             ("rnd4", {"progs": [WAU + RAU, RAU + WAU, TWAU + RAU, RAU + TRAU], "runs": 4000, "spur": 1, "eintr": 1, "weak": 1}),
         ]
     stress = {"threads": 4, "sections": 1500} if tier == "quick" else {"threads": 8, "sections": 10000}
-    rare = [("wwr", 3, "C_WWR", (0, 0, 0))] if tier == "quick" else [("wwr1", 3, "C_WWR", (1, 0, 1))]
+    rare = [("wwr", 3, "C_WWR", (0, 0, 0))] if tier == "quick" else []     # thorough tours the 3-thread graph wrt completely
     return LC.run(tier, tours, configs, configs_if_differs, specs, stress=stress, rare_tours=rare)
 
 
